@@ -138,7 +138,14 @@ func TestC23(t *testing.T) {
 		if r.Tier != "quick" {
 			k = 20 + r.Rng.Intn(41)
 		}
-		ops := make([]sh.Op, 0, k)
+		ops := make([]sh.Op, 0, k+3)
+		if i%2 == 0 { // half of the histories start from a populated store
+			for _, o := range []sh.Op{{Kind: "AddPod", P: "p0", D: "d0"}, {Kind: "AddPod", P: "p1", D: "d1"},
+				{Kind: "AddNode", Nodes: []sh.NodeArg{node(sh.NodesU[r.Rng.Intn(len(sh.NodesU))], "p0", sh.Labels{"l": "x"}, "")}}} {
+				g.S.Apply(o)
+				ops = append(ops, o)
+			}
+		}
 		for j := 0; j < k; j++ {
 			o, _ := g.Next()
 			ops = append(ops, o)
